@@ -63,6 +63,10 @@ def gen(rng, tier):
             if o is not None:
                 exp[len(qs)] = fileq.py_segdata(data, p)
             qs.append("segdata %s" % fileq.hdr_tokens("phdr", cl, p))
+            if p["p_type"] == 4:          # the typed view of the same caller-made PT_NOTE header: a range that does not fit is an error, never clamped
+                if o is not None and fileq.py_segdata(data, p) == "E":
+                    exp[len(qs)] = "E"
+                qs.append("segnotes %s" % fileq.hdr_tokens("phdr", cl, p))
         c = "bytes %s %s | %s" % (fam, hx(data), " | ".join(qs))
         _exp[c] = exp
         cases.append(c)
